@@ -92,13 +92,16 @@ Proof.
 Qed.
 
 Lemma flux_wall_facts : forall st x,
-  flux_seconds (declared (st_res st) RWalltime) = Some x ->
+  flux_declared_seconds st = Some x ->
   match lookup (s "walltime") (st_res st) with Some VNone => false | _ => true end = true ->
   exists w, flux_walltime (run_val st (s "walltime")) = Ok w /\ ~ In nl w /\ read_seconds w = Some x.
 Proof.
-  intros st x FS NN. unfold declared in FS. change (key_name RWalltime) with (s "walltime") in FS.
+  intros st x FS NN. unfold flux_declared_seconds, declared in FS. change (key_name RWalltime) with (s "walltime") in FS.
   unfold run_val. destruct (lookup (s "walltime") (st_res st)) as [v|].
-  - destruct v as [n|t|bb|]; try discriminate NN.
+  - destruct v as [n|t|bb| |n]; try discriminate NN;
+      [| | | (* an integral float: minutes *)
+         inversion FS; subst x; exists (N_dec (n * 60)); split; [reflexivity|]; split;
+         [apply digits_nonl; apply N_dec_all_digits | apply read_seconds_int] ].
     + (* integer minutes *)
       simpl truthy in FS. destruct (N.eqb_spec n 0).
       * subst n. simpl in FS. inversion FS. subst x. exists (s "0"). repeat split; auto.
@@ -238,7 +241,7 @@ Qed.
 
 (** * the Flux domain, unpacked *)
 Record flux_parts (c : case) : Prop := {
-  fp_wall : exists x, flux_seconds (declared (st_res (c_step c)) RWalltime) = Some x;
+  fp_wall : exists x, flux_declared_seconds (c_step c) = Some x;
   fp_wnone : match lookup (s "walltime") (st_res (c_step c)) with Some VNone => false | _ => true end = true;
   fp_bnodes : match lookup (s "nodes") (b_kw (c_batch c)) with Some v => truthy v | None => true end = true;
   fp_broker : memb nl (c_broker c) = false;
@@ -253,7 +256,7 @@ Proof.
   intros c H. unfold flux_dom in H. cbv zeta in H.
   repeat (apply andb_true_iff in H; destruct H as [H ?]).
   constructor; auto.
-  - destruct (flux_seconds (declared (st_res (c_step c)) RWalltime)); try discriminate. eauto.
+  - destruct (flux_declared_seconds (c_step c)); try discriminate. eauto.
   - apply negb_true_iff. auto.
 Qed.
 
@@ -655,7 +658,7 @@ Section FluxScript.
   Variables (w : str) (x : N).
   Hypothesis Hw : flux_walltime (run_val st (s "walltime")) = Ok w.
   Hypothesis Wnl : ~ In nl w.
-  Hypothesis Hx : flux_seconds (declared (st_res st) RWalltime) = Some x.
+  Hypothesis Hx : flux_declared_seconds st = Some x.
   Hypothesis Wx : read_seconds w = Some x.
   Let lines := flux_lines b broker st w.
   Definition finf (ps : list piece) : str := segs_text (map (final_seg (tsub_flux c) (bsub_flux c)) ps).
@@ -669,7 +672,7 @@ Section FluxScript.
   Lemma flux_header_reads : forall body,
     let text := join [nl] lines ++ nl :: nl :: body in
     opt_eqb (read_flux_info text (s "nodes")) (effective_flux_nodes b st) = true
-    /\ flux_walltime_ok (effective b st RWalltime) (read_flux_info text (s "walltime")) = true.
+    /\ flux_walltime_ok (flux_declared_seconds st) (read_flux_info text (s "walltime")) = true.
   Proof.
     intros body text. unfold text, lines.
     destruct (flux_lines_shape c w) as [rest E]. fold st b broker in E. rewrite E.
@@ -688,10 +691,7 @@ Section FluxScript.
         destruct (declared (b_kw b) RNodes); apply opt_eqb_refl.
     - match goal with |- flux_walltime_ok _ ?X = true =>
         replace X with (Some w) by (symmetry; exact R2) end.
-      unfold flux_walltime_ok.
-      assert (EF : effective b st RWalltime = declared (st_res st) RWalltime).
-      { unfold effective. simpl batch_level. cbv iota. destruct (declared (st_res st) RWalltime); auto. }
-      rewrite EF, Hx, Wx. apply N.eqb_refl.
+      unfold flux_walltime_ok. rewrite Hx, Wx. apply N.eqb_refl.
   Qed.
 
   Lemma finf_start : forall ps, pieces_wf ps = true -> starts_cmd ps = true ->
@@ -847,7 +847,7 @@ Qed.
 Definition flux_header_reads_p (c : case) (text : str) : Prop :=
   first_line text = shebang_of (c_batch c) /\
   read_flux_info text (s "nodes") = effective_flux_nodes (c_batch c) (c_step c) /\
-  flux_walltime_ok (effective (c_batch c) (c_step c) RWalltime) (read_flux_info text (s "walltime")) = true.
+  flux_walltime_ok (flux_declared_seconds (c_step c)) (read_flux_info text (s "walltime")) = true.
 Definition flux_launcher_reads (c : case) (ps : list piece) (text : str) : Prop :=
   containsb launcher_var (script_body text) = false /\
   match_body (launch_ok_flux (c_batch c) (c_step c)) (ps ++ [PText [nl]]) (script_body text) = true.
